@@ -629,6 +629,36 @@ class _HookLock:
         return False
 
 
+class SpinGuard:
+    """Stand-in for SFTPFile._prefetch_lock on a file that never prefetches: the only code that takes this lock for
+    such a file is the spin in _async_response waiting for an extent to be registered — which nobody will ever do.
+    A few thousand turns of that spin are a hang (decided structurally, the loop has no exit), not a slow run."""
+
+    def __init__(self, limit=5000):
+        self.n, self.limit = 0, limit
+
+    def __enter__(self):
+        self.n += 1
+        if self.n > self.limit:
+            raise Hang("spins in _async_response for the extent of a request that is not a prefetch")
+        return self
+
+    def __exit__(self, *a):
+        return False
+
+
+def deliver_first(sess, k):
+    """the k-th queued response packet of a DetSession overtakes the older ones (responses are matched by id)"""
+    b, pk, i = sess.sock.s2c, [], 0
+    while len(b) - i >= 4:
+        n = struct.unpack(">I", bytes(b[i:i + 4]))[0]
+        pk.append(bytes(b[i:i + 4 + n]))
+        i += 4 + n
+    if k < len(pk):
+        pk.insert(0, pk.pop(k))
+        sess.sock.s2c[:] = b"".join(pk) + bytes(b[i:])
+
+
 class _SftpLock:
     """Stand-in for SFTPClient._lock in the deterministic session (one task runs at a time, so nothing has to be
     locked): taking the lock inside _async_request is a park point — whatever the code did *before* it asked for
